@@ -583,3 +583,172 @@ Proof.
   unfold ng_fit, ng_tokdict, ng_n, ng_beh; cbn [fst snd].
   rewrite learn_tokdict_known_doc by (apply nth_In; exact Hi). reflexivity.
 Qed.
+
+(* ================= unigram models and '+' ================= *)
+Lemma nth_map_in {A B} (f : A -> B) (l : list A) (d : A) (d' : B) k :
+  (k < length l)%nat -> nth k (map f l) d' = f (nth k l d).
+Proof.
+  revert k. induction l as [|x l IH]; intros k H; cbn in H; [lia|]. destruct k as [|k]; [reflexivity|].
+  cbn. apply IH. lia.
+Qed.
+
+Lemma ngrams_1_exact {A} (s : list A) : ngrams_of s 1 Exact = map (fun x => [x]) s.
+Proof.
+  destruct s as [|d0 s0]; [reflexivity|]. set (s := d0 :: s0).
+  rewrite (ngrams_exact_spec d0) by lia. replace (length s + 1 - 1)%nat with (length s) by lia.
+  apply (nth_ext _ _ [] []).
+  - rewrite !map_length, seq_length. reflexivity.
+  - intros k Hk. rewrite map_length, seq_length in Hk. rewrite nth_map_seq by exact Hk.
+    rewrite (nth_map_in _ s d0) by exact Hk.
+    unfold run. cbn [seq map]. rewrite Nat.add_0_r. reflexivity.
+Qed.
+
+Lemma ngrams_1_subgrams {A} (s : list A) : ngrams_of s 1 Subgrams = ngrams_of s 1 Exact.
+Proof. unfold ngrams_of. apply flat_map_ext. intros i. cbn [seq flat_map]. apply app_nil_r. Qed.
+
+Lemma ngrams_1 {A} (s : list A) b : ngrams_of s 1 b = map (fun x => [x]) s.
+Proof. destruct b; [|rewrite ngrams_1_subgrams]; apply ngrams_1_exact. Qed.
+
+Lemma count_occ_singletons s l : count_occ gram_dec (map (fun x => [x]) s) [l] = count_occ Z.eq_dec s l.
+Proof.
+  induction s as [|x s IH]; [reflexivity|]. cbn [map count_occ].
+  destruct (gram_dec [x] [l]) as [E|E], (Z.eq_dec x l) as [E'|E']; try congruence.
+Qed.
+
+(* lookup in an enumerated dictionary is the position *)
+Lemma lookup_combine_seq ls a l :
+  lookup l (combine ls (map Z.of_nat (seq a (length ls)))) = option_map (fun k => Z.of_nat a + k) (index_of l ls).
+Proof.
+  unfold lookup. revert a. induction ls as [|x ls IH]; intros a; [reflexivity|].
+  cbn [length seq map combine alookup index_of]. destruct (x =? l); [cbn [option_map]; f_equal; lia|].
+  rewrite IH. destruct (index_of l ls); cbn [option_map]; [f_equal; lia|reflexivity].
+Qed.
+
+Lemma lookup_enum_dict ls l : lookup l (enum_dict ls) = index_of l ls.
+Proof. unfold enum_dict. rewrite lookup_combine_seq. destruct (index_of l ls); cbn [option_map]; [f_equal; lia|reflexivity]. Qed.
+
+Lemma index_of_In x l : In x l -> exists k, index_of x l = Some k.
+Proof.
+  intros H. destruct (index_of x l) as [k|] eqn:E; [eauto|]. exfalso. eapply index_of_None; eassumption.
+Qed.
+
+Lemma index_of_app_l x l1 l2 : In x l1 -> index_of x (l1 ++ l2) = index_of x l1.
+Proof.
+  induction l1 as [|y l1 IH]; [intros []|]. intros H. cbn [app index_of]. destruct (y =? x) eqn:E; [reflexivity|].
+  apply Z.eqb_neq in E. destruct H as [H|H]; [congruence|]. rewrite (IH H). reflexivity.
+Qed.
+
+Lemma index_of_app_r x l1 l2 :
+  ~ In x l1 -> index_of x (l1 ++ l2) = option_map (fun k => Z.of_nat (length l1) + k) (index_of x l2).
+Proof.
+  induction l1 as [|y l1 IH]; intros H.
+  - cbn [app length option_map]. destruct (index_of x l2); cbn [option_map]; [f_equal; lia|reflexivity].
+  - cbn [app index_of length]. destruct (y =? x) eqn:E; [apply Z.eqb_eq in E; exfalso; apply H; left; exact E|].
+    rewrite IH by (intros Hx; apply H; right; exact Hx). destruct (index_of x l2); cbn [option_map]; [f_equal; lia|reflexivity].
+Qed.
+
+Lemma index_of_inj l x y k : index_of x l = Some k -> index_of y l = Some k -> x = y.
+Proof. intros Hx Hy. apply index_of_Some in Hx, Hy. destruct Hx as [_ <-], Hy as [_ <-]. reflexivity. Qed.
+
+Definition enum_idx (ls : list Z) : dict := invert (enum_dict ls).
+
+Lemma invert_combine {A B} (l : list A) (l' : list B) :
+  map (fun kv => (snd kv, fst kv)) (combine l l') = combine l' l.
+Proof. revert l'. induction l as [|x l IH]; intros [|y l']; cbn; try reflexivity. rewrite IH. reflexivity. Qed.
+
+Lemma invert_invert d : invert (invert d) = d.
+Proof. unfold invert. rewrite map_map. rewrite <- (map_id d) at 2. apply map_ext. intros [a b]. reflexivity. Qed.
+
+Lemma combine_app {A B} (l1 l2 : list A) (m1 m2 : list B) :
+  length l1 = length m1 -> combine (l1 ++ l2) (m1 ++ m2) = combine l1 m1 ++ combine l2 m2.
+Proof.
+  revert m1. induction l1 as [|x l1 IH]; intros [|y m1] H; cbn in *; try discriminate; [reflexivity|].
+  rewrite IH by lia. reflexivity.
+Qed.
+
+Lemma enum_idx_app la ord :
+  enum_idx (la ++ ord)
+  = enum_idx la ++ combine (map (fun i => Z.of_nat (length (enum_idx la)) + Z.of_nat i) (seq 0 (length ord))) ord.
+Proof.
+  unfold enum_idx, invert, enum_dict. rewrite !invert_combine. rewrite app_length, seq_app, map_app.
+  rewrite combine_app by (rewrite map_length, seq_length; reflexivity). f_equal.
+  rewrite combine_length, map_length, seq_length, Nat.min_id. cbn [Nat.add].
+  rewrite (seq_add_map (length la)), map_map. f_equal. apply map_ext. intros i. lia.
+Qed.
+
+Lemma enum_dict_range ls : Forall (fun kv => 0 <= snd kv < Z.of_nat (length ls)) (enum_dict ls).
+Proof.
+  apply Forall_forall. intros [k v] H. cbn.
+  assert (Hv : In v (map snd (enum_dict ls))) by (change v with (snd (k, v)); apply in_map; exact H).
+  rewrite enum_dict_values in Hv. apply in_map_iff in Hv. destruct Hv as [x [<- Hx]]. apply in_seq in Hx. lia.
+Qed.
+
+Definition uni_wf (m : uni_model) (ls : list Z) : Prop :=
+  NoDup ls /\ u_idx m = enum_idx ls /\ u_lab m = enum_dict ls.
+
+(* m is a unigram model with columns ls whose training matrix holds the token counts of the corpus X *)
+Definition counts_ok (m : uni_model) (ls : list Z) (X : list (list Z)) : Prop :=
+  uni_wf m ls /\
+  nrows (u_train m) = Z.of_nat (length X) /\ ncols (u_train m) = Z.of_nat (length ls) /\
+  (forall t, In t (entries (u_train m)) ->
+             0 <= trow t < Z.of_nat (length X) /\ 0 <= tcol t < Z.of_nat (length ls)) /\
+  (forall d t, In d X -> In t d -> In t ls) /\
+  (forall i l j, (i < length X)%nat -> index_of l ls = Some j ->
+                 cell (entries (u_train m)) (Z.of_nat i) j = Z.of_nat (count_occ Z.eq_dec (nth i X []) l)).
+
+Lemma uni_ng_wf ls b m : uni_wf m ls -> ng_wf (uni_as_ng m b).
+Proof.
+  intros [ND [Hi Hl]]. unfold ng_wf, uni_as_ng, ng_tokdict, ng_inv, ng_cold; cbn [fst snd]. rewrite Hi, Hl. split.
+  - apply invert_inverse_ok, enum_dict_values_NoDup.
+  - apply NoDup_values_ginj. rewrite bare_dict_snd. apply enum_dict_values_NoDup.
+Qed.
+
+(* transform of a (fitted or merged) unigram model: token counts over its columns, unseen tokens ignored *)
+Theorem uni_transform_cell m ls b X i l j :
+  uni_wf m ls -> (i < length X)%nat -> index_of l ls = Some j ->
+  cell (entries (ng_transform (uni_as_ng m b) X)) (Z.of_nat i) j = Z.of_nat (count_occ Z.eq_dec (nth i X []) l).
+Proof.
+  intros W Hi Hj. pose proof (uni_ng_wf ls b m W) as Wn. destruct W as [ND [Hidx Hlab]].
+  rewrite (ng_cell _ X i [l] j Wn Hi).
+  - f_equal. unfold label_grams, uni_as_ng, ng_tokdict, ng_n, ng_beh; cbn [fst snd].
+    rewrite ngrams_1, count_occ_singletons. rewrite Hlab. unfold known.
+    induction (nth i X []) as [|t d IH]; [reflexivity|]. cbn [filter]. unfold tok_known at 1.
+    rewrite lookup_enum_dict. destruct (Z.eq_dec t l) as [->|Hne].
+    + rewrite Hj. cbn [is_some count_occ]. destruct (Z.eq_dec l l); [|congruence]. rewrite IH. reflexivity.
+    + cbn [count_occ]. destruct (Z.eq_dec t l); [congruence|].
+      destruct (index_of t ls); cbn [is_some]; [cbn [count_occ]; destruct (Z.eq_dec t l); [congruence|]|]; exact IH.
+  - cbn [gram_key]. unfold uni_as_ng, ng_cold; cbn [fst snd]. rewrite glookup_bare_dict, Hlab, lookup_enum_dict. exact Hj.
+Qed.
+
+Lemma uni_transform_shape m ls b X :
+  uni_wf m ls ->
+  nrows (ng_transform (uni_as_ng m b) X) = Z.of_nat (length X) /\
+  ncols (ng_transform (uni_as_ng m b) X) = Z.of_nat (length ls) /\
+  (forall t, In t (entries (ng_transform (uni_as_ng m b) X)) ->
+             0 <= trow t < Z.of_nat (length X) /\ 0 <= tcol t < Z.of_nat (length ls)).
+Proof.
+  intros [ND [Hidx Hlab]].
+  assert (Hlen : length (ng_cold (uni_as_ng m b)) = length ls).
+  { unfold uni_as_ng, ng_cold, bare_dict; cbn [fst snd]. rewrite map_length, Hlab. apply enum_dict_length. }
+  assert (Hn : nrows (ng_transform (uni_as_ng m b) X) = Z.of_nat (length X)) by reflexivity.
+  assert (Hc : ncols (ng_transform (uni_as_ng m b) X) = Z.of_nat (length ls))
+    by (unfold ng_transform, ncols; cbn [fst snd]; rewrite Hlen; reflexivity).
+  split; [exact Hn|]. split; [exact Hc|]. intros t Ht. rewrite <- Hn, <- Hc.
+  apply ng_transform_in_range; [|exact Ht]. rewrite Hlen.
+  unfold uni_as_ng, ng_cold, bare_dict; cbn [fst snd]. rewrite Hlab. apply Forall_forall. intros kv Hkv.
+  apply in_map_iff in Hkv. destruct Hkv as [kv' [<- Hkv']]. cbn [snd].
+  pose proof (enum_dict_range ls) as HR. rewrite Forall_forall in HR. apply (HR _ Hkv').
+Qed.
+
+Theorem uni_fit_counts_ok X : counts_ok (uni_fit X) (sort_uniq (concat X)) X.
+Proof.
+  set (ls := sort_uniq (concat X)).
+  assert (W : uni_wf (uni_fit X) ls).
+  { unfold uni_wf, uni_fit, ng_fit, ng_inv, ng_tokdict, u_idx, u_lab; cbn [fst snd].
+    split; [apply sort_uniq_NoDup|]. split; reflexivity. }
+  assert (Htrain : u_train (uni_fit X) = ng_transform (uni_as_ng (uni_fit X) Exact) X) by reflexivity.
+  destruct (uni_transform_shape (uni_fit X) ls Exact X W) as [Hn [Hc Hr]].
+  unfold counts_ok. rewrite Htrain. split; [exact W|]. split; [exact Hn|]. split; [exact Hc|]. split; [exact Hr|]. split.
+  - intros d t Hd Ht. apply sort_uniq_In. apply in_concat. eauto.
+  - intros i l j Hi Hj. apply (uni_transform_cell _ ls); assumption.
+Qed.
